@@ -374,7 +374,7 @@ def main():
             tid += 1
             # exact source: gap cycles with the trace index; family source: every (family, gap) pair is visited
             gapname = gaps[i % len(gaps)] if (a.source == "exact" or not fams) else gaps[(i // len(fams)) % len(gaps)]
-            budget = rng.choice([None, None, 0, 1, 2, nact]) if a.kind != "solve" else None
+            budget = rng.choice([None, None, 0, 1, 2, nact]) if a.kind != "solve" else rng.choice([None, None, 1, 2, 3, nact])
             linear = a.kind == "linear"
             solver_name = solvers[(i // len(gaps)) % len(solvers)] if a.kind == "solve" else ""
             if a.source == "exact":
